@@ -32,8 +32,10 @@ def sessClose (sd : Side) (active : Bool) (timer : Bool := false) : Side × Res 
     let (sd, _) := ev sd .sweep
     let sd := { sd with rbs := sd.rbs.map (fun p => (p.1, RB.close p.2)) }  -- every open stream's pipe is closed; closing an already closed pipe is idempotent
     if active ∧ sd.wfail then
-      -- `Close`: the notice cannot be sent; `send` calls passiveClose (a repeat, so no closeAll) and `Close` returns the error before its own closeAll
-      (sd, .refused)
+      -- `Close`: the notice cannot be sent; `send` calls passiveClose (a repeat, so no closeAll) and `Close` returns the error:
+      -- whether its own closeAll still runs is what the source says (deferred before the send, or placed after it)
+      if Gen.Session.closeSweepsEvenIfNoticeFails then ((ev sd .closeAll).1, .refused)
+      else (sd, .refused)
     else
       let sd := if active then { sd with notice := sd.notice + 1 } else sd
       let (sd, _) := ev sd .closeAll
